@@ -32,7 +32,10 @@ CONSTANTS MaxMsgs,        \* streams of 0..MaxMsgs messages
           Faults,         \* subset of FaultKinds (without "none") that may be applied
           Modes,          \* subset of [info: BOOLEAN, cont: BOOLEAN, filt: BOOLEAN]
           UniformSeps,    \* TRUE: all separators of a stream are the same one (keeps 3-message streams small)
-          WithCuts        \* TRUE: additionally every proper prefix of every pool message, alone in the stream
+          WithCuts,       \* TRUE: additionally every proper prefix of every pool message, alone in the stream
+          SweepLo, SweepHi, SweepChunk   \* length sweep: messages with SweepLo..SweepHi filler octets (consecutive total
+                                         \* lengths, so that every value of the low length octet occurs), SweepChunk per stream;
+                                         \* SweepHi < SweepLo: no sweep
 
 FaultKinds == {"stop", "undef_elem", "undef_elem2", "undef_seq", "shrink1", "grow1", "shrink3", "grow3", "shrink4", "grow4"}
 
@@ -48,7 +51,16 @@ PoolMsg(k) ==
       [] k = 4 -> Message(2, Ident0, <<>>, 1, TRUE, FALSE, <<12001, 2001>>, UintBits(2501, 12) \o <<1, 0>>)
       \* 221001: the next descriptor carries no data - but it still has to be a defined one
       [] k = 5 -> Message(4, Ident0, <<>>, 1, TRUE, FALSE, <<221001, 12001, 1001>>, <<0, 0, 0, 0, 1, 0, 1>>)
-PoolEdition(k) == CASE k = 1 -> 4 [] k = 2 -> 3 [] k = 3 -> 4 [] k = 4 -> 2 [] k = 5 -> 4
+PoolEdition(k) == CASE k = 1 -> 4 [] k = 2 -> 3 [] k = 3 -> 4 [] k = 4 -> 2 [] k = 5 -> 4 [] k >= 100 -> 4
+
+(* the length sweep: segment index 100 + y is an edition 4 message carrying y filler octets in two 205YYY
+   character fields, so its total length is 49 + y: what a scanner reads from the header of a message -
+   in particular the three length octets - takes every value of the low octet (and 0, 1, 2 in the middle
+   one) as y runs through 2..510 *)
+SweepMsg(y) == LET y1 == IF y > 255 THEN 255 ELSE y - 1
+                   y2 == y - y1
+               IN Message(4, Ident0, <<>>, 1, TRUE, FALSE, <<205000 + y1, 205000 + y2>>, OctetsToBits([i \in 1..y |-> 32 + (i % 64)]))
+ASSUME TLCSet(22, [y \in SweepLo..SweepHi |-> SweepMsg(y)])
 
 Sep(k) ==
     CASE k = 1 -> <<>>
@@ -89,6 +101,7 @@ VARIABLES layout,     \* sequence of [kind: "sep" | "msg", k, fault]
 vars == <<layout, stream, starts, mode, cur, found, yielded, status, hist>>
 
 SegOctets(sg) == IF sg.kind = "sep" THEN Sep(sg.k)
+                 ELSE IF sg.k >= 100 THEN TLCGet(22)[sg.k - 100]
                  ELSE IF sg.fault = "cut" THEN SubSeq(Octets(sg.k, "none"), 1, sg.cut)
                  ELSE Octets(sg.k, sg.fault)
 RECURSIVE Cat(_, _)
@@ -151,9 +164,15 @@ Sane(l) == \A i \in 1..Len(l) :
     /\ (l[i].kind = "msg" /\ l[i].k = 2) => l[i].fault \in {"none", "stop", "undef_elem", "undef_seq"}
     /\ (l[i].kind = "msg" /\ l[i].fault = "undef_elem2") => l[i].k = 5
 
+RECURSIVE SweepFrom(_, _)
+SweepFrom(y, stop) == IF y > stop THEN <<>> ELSE <<MsgSeg(100 + y, "none"), SepSeg(IF y % 3 = 0 THEN 2 ELSE 1)>> \o SweepFrom(y + 1, stop)
+SweepLayouts == {<<SepSeg(2)>> \o SweepFrom(a, IF a + SweepChunk - 1 > SweepHi THEN SweepHi ELSE a + SweepChunk - 1) :
+                    a \in {y \in SweepLo..SweepHi : (y - SweepLo) % SweepChunk = 0}}
+
 Init ==
     /\ \/ \E n \in 0..MaxMsgs : layout \in {l \in Layouts(n) : Sane(l) /\ (UniformSeps => Uniform(l))}
        \/ WithCuts /\ layout \in CutLayouts
+       \/ layout \in SweepLayouts
     /\ stream = Cat(layout, 1)
     /\ starts = [i \in 1..Len(layout) |-> StartOfR(layout, i)]
     /\ mode \in Modes
